@@ -200,7 +200,7 @@ def kani_cmd(full_name, playback=False):
 def parse_log(path):
     """Parse a `--output-format old` Kani/CBMC log."""
     r = dict(decided=False, checks=0, failed=[], covers_sat=[], covers_unsat=[], unwinding_fail=[],
-             capacity_fail=False, undetermined=[], repo_functions=[], stats={}, compile_error=False,
+             capacity_fail=False, precondition_fail=None, undetermined=[], repo_functions=[], stats={}, compile_error=False,
              cbmc_error=False, unsupported_reached=[])
     fns = set()
     in_results = False
@@ -256,6 +256,8 @@ def parse_log(path):
                         r["unwinding_fail"].append(rec)
                     elif "oracle capacity" in desc:
                         r["capacity_fail"] = True
+                    elif "harness precondition" in desc:
+                        r["precondition_fail"] = desc
                     elif "is not currently supported by Kani" in desc or kind == "unsupported_construct":
                         r["unsupported_reached"].append(rec)
                     else:
@@ -288,6 +290,8 @@ def classify(pr, status):
         return "error", "no verdict in log" + (" (CBMC error)" if pr["cbmc_error"] else "")
     if pr["capacity_fail"]:
         return "error", "oracle capacity exceeded"
+    if pr.get("precondition_fail"):
+        return "error", pr["precondition_fail"]
     if pr["unwinding_fail"]:
         return "error", "unwinding assertion failed: " + pr["unwinding_fail"][0]["id"]
     if pr["undetermined"]:
